@@ -370,7 +370,7 @@ func (r *c26Run) Main(s *sim.Sim) {
 					hint = "recreated-id-collides-with-registered-subscription"
 				case s.Label("client.monitor.noSubscriptionsToResume") > 0:
 					hint = "not-resumed-after-reconnect"
-				case publishLoopPaused():
+				case publishLoopPaused(cl):
 					hint = "publish-loop-paused"
 				}
 				s.Fail("C26", "subscription-dead-after-reconnect", hint, "subscription %d (item on node n%d) did not deliver the value %d written %v after the last fault ended; client state %v, %s; faults %+v",
